@@ -177,8 +177,9 @@ theorem frame_exchange {s : State} (hI : Inv s) {d n : Nat} {N : Rep} (hn : s.re
     obtain ⟨hC, -⟩ := destroyRep_spec (fuel (switchRep d n Q.parent s)) q _ hI2
     exact ((frame_switchRep s d n Q.parent c0).trans (frame_of_casc hC c0)).trans (frame_eraseRep q c0)
 
-theorem frame_deleteRepWithCheck {s : State} (hI : Inv s) (v : Nat) (c0 : Option Nat)
+theorem frame_deleteRepWithCheck {s : State} (hw : WF s) (v : Nat) (c0 : Option Nat)
     (he : (deleteRepWithCheck v s).err = false) : Frame c0 s (deleteRepWithCheck v s) := by
+  have hI := hw.inv
   rw [deleteRepWithCheck_eq] at he ⊢
   cases hv : repOf s v with
   | none => exact Frame.refl c0 s
@@ -186,14 +187,20 @@ theorem frame_deleteRepWithCheck {s : State} (hI : Inv s) (v : Nat) (c0 : Option
     simp only [hv] at he ⊢
     by_cases ha : ((repDisconnect r s).reps r).isSome = true
     · simp only [ha, if_true] at he ⊢
-      rw [err_swapVar] at he
+      rw [err_eraseRep] at he
       have he1 : (repDisconnect r s).err = false := by
         cases hx : (repDisconnect r s).err with
         | false => rfl
-        | true => rw [destroyRep_err_true _ _ _ hx] at he; exact absurd he (by simp)
+        | true =>
+          rw [destroyRep_err_true _ _ _ (by rw [err_modSlot]; exact hx)] at he; exact absurd he (by simp)
       obtain ⟨hC1, hI1⟩ := repDisconnect_spec hI r he1
-      obtain ⟨hC3, -⟩ := destroyRep_spec (fuel (repDisconnect r s)) r _ hI1
-      exact ((frame_of_casc hC1 c0).trans (frame_of_casc hC3 c0)).trans (frame_swapVar v r none c0)
+      have hv1 : repOf (repDisconnect r s) v = some r := by
+        simp only [repOf, repDisconnect_slot hI hv he1]; exact hv
+      obtain ⟨hI2, -⟩ := inv_unhold hI1 hv1
+      obtain ⟨hC3, -⟩ := destroyRep_spec
+        (fuel ((repDisconnect r s).modSlot v fun V => { V with rep := none })) r _ hI2
+      exact (((frame_of_casc hC1 c0).trans (frame_of_eq (reps_modSlot _ _ _) (conns_modSlot _ _ _) c0)).trans
+        (frame_of_casc hC3 c0)).trans (frame_eraseRep r c0)
     · simp only [ha] at he ⊢
       obtain ⟨hC1, -⟩ := repDisconnect_spec hI r he
       exact frame_of_casc hC1 c0
@@ -317,7 +324,7 @@ theorem frame_apply {s : State} (hw : WF s) (op : Op) (hc : check s op = none)
       · rename_i hsame
         rw [if_neg hsame] at he
         split
-        · rename_i hemp; rw [if_pos hemp] at he; exact frame_deleteRepWithCheck hI d _ he
+        · rename_i hemp; rw [if_pos hemp] at he; exact frame_deleteRepWithCheck hw d _ he
         · cases hr : X.rep with
           | none => exact Frame.refl _ s
           | some r =>
@@ -339,7 +346,7 @@ theorem frame_apply {s : State} (hw : WF s) (op : Op) (hc : check s op = none)
       · rename_i hsame
         rw [if_neg hsame] at he
         split
-        · rename_i hemp; rw [if_pos hemp] at he; exact frame_deleteRepWithCheck hI d _ he
+        · rename_i hemp; rw [if_pos hemp] at he; exact frame_deleteRepWithCheck hw d _ he
         · cases hr : X.rep with
           | none => exact Frame.refl _ s
           | some r =>
@@ -384,7 +391,7 @@ theorem frame_apply {s : State} (hw : WF s) (op : Op) (hc : check s op = none)
     simp only [apply] at he ⊢
     split
     · exact frame_of_eq (reps_modSlot _ _ _) (conns_modSlot _ _ _) _
-    · rename_i r hr; simp only [hr] at he; exact frame_deleteRepWithCheck hI d _ he
+    · rename_i r hr; simp only [hr] at he; exact frame_deleteRepWithCheck hw d _ he
   | delS v =>
     rw [apply_delS] at he ⊢
     cases hv : repOf s v with
